@@ -1673,6 +1673,8 @@ def save_load(ctx, drv, case, enc, h, T, fmt, tmp, stage, rep=None, must=None):
             # (the bytes are read as what the platform's reader makes of them: UTF-8 here; lone surrogates pass)
             text = raw.decode("utf-8", "surrogatepass")
             data = json.loads(text)
+            if drv is not None and len(raw) <= 6000 and _LINES["n"] < ctx.scale(80, 3000) and all(b < 128 for b in raw):
+                check_file_lines(ctx, drv, vc, raw, data)
         except Exception as e:  # noqa: BLE001
             ctx.violation(vc, f"{stage}: the saved file is not JSON although load_hypergraph read it: {e}")
             return out
@@ -2105,6 +2107,12 @@ def check_hgr(ctx, drv, case, tmp):
         mine = digest_lines(enc, d, "H")
         if ans == "rej" or parse_driver_digest(ans) != mine:
             ctx.disagree(case, f"model parseHgr gives {ans!r}, implementation {mine!r}")
+        elif len(case["text"]) <= 12000:
+            # extension round: the model's own strip / split(" ") / int on the CHARACTERS of the file (HgrText.parseHgrText)
+            ans = drv.batch(["hgr_text " + cps(case["text"])])[0]
+            ctx.count("hgr_files_lexed_by_the_model")
+            if ans == "rej" or parse_driver_digest(ans) != mine:
+                ctx.disagree(case, f"model parseHgrText (from the characters of the file) gives {ans[:300]!r}, implementation {mine!r}")
 
 
 # ------------------------------------------------------------------------------------------
@@ -2558,6 +2566,135 @@ def check_file_strings(ctx, drv, vc, raw, d0):
 
 
 # ------------------------------------------------------------------------------------------
+# extension round: the CHARACTER level of the .json format (lean/Hgxv/Model/C06Json.lean): numbers, whole JSON values as
+# json.dump(..., separators=(",", ":")) writes them, the file as one record per line, the file read line by line
+
+_LINES = {"n": 0}
+INT_LITERALS = ["0", "-0", "00", "01", "-", "", "+1", "1a", "--1", "-01", "10", "1e5", "1.0", "1.", "0x10", "1_000", "-1", "9" * 40,
+                "-" + "9" * 40, "0" * 3, "1-", "-a", "12345678901234567890", "1,2", "1\n", "\n1", "NaN", "-Infinity", "٣", "１"]
+
+
+def jcode(v, out):
+    """a JSON value in the prefix form of the driver's `js_emit`"""
+    if v is None:
+        out.append(0)
+    elif v is True or v is False:
+        out.append(2 if v else 1)
+    elif type(v) is int:
+        ds = str(abs(v))
+        out += [3, 1 if v < 0 else 0, len(ds)] + [int(c) for c in ds]
+    elif type(v) is float:
+        # the float layer is a PARAMETER of the model (repr): the text float.__repr__ / json's constants give
+        t = float.__repr__(v) if v == v and v not in (float("inf"), float("-inf")) else ("NaN" if v != v else ("Infinity" if v > 0 else "-Infinity"))
+        out += [4, len(t)] + [ord(c) for c in t]
+    elif type(v) is str:
+        out += [5, len(v)] + [ord(c) for c in v]
+    elif type(v) is list:
+        out += [6, len(v)]
+        for x in v:
+            jcode(x, out)
+    elif type(v) is dict and all(type(k) is str for k in v):
+        out += [7, len(v)]
+        for k, x in v.items():
+            out += [len(k)] + [ord(c) for c in k]
+            jcode(x, out)
+    else:
+        raise TypeError("no JSON value of the model: " + type(v).__name__)
+    return out
+
+
+def rand_json(rng, depth):
+    k = rng.randrange(9 if depth > 0 else 6)
+    if k == 0:
+        return rng.choice([None, True, False])
+    if k == 1:
+        return rng.choice([0, 1, -1, 9, 10, -10, 2 ** 31, -2 ** 63, 2 ** 64, 10 ** 30, -(10 ** 30) + 1, rng.randrange(-10 ** 40, 10 ** 40)])
+    if k == 2:
+        return rng.choice([0.0, -0.0, 0.25, 1.0, -2.5, 0.1, 1 / 3, 1e300, 5e-324, 2.0 ** 53, 1e16, 1e-7, 123456789.125])
+    if k in (3, 4, 5):
+        return "".join(chr(rng.choice(CP_POOL)) for _ in range(rng.randint(0, 6)))
+    if k in (6, 7):
+        return [rand_json(rng, depth - 1) for _ in range(rng.randint(0, 4))]
+    return {"".join(chr(rng.choice(CP_POOL)) for _ in range(rng.randint(0, 4))): rand_json(rng, depth - 1) for _ in range(rng.randint(0, 4))}
+
+
+def check_json_chars(ctx, drv, rng):
+    """model Num.encInt / Num.decInt / J.emit / readFile / render against json.dumps / json.loads"""
+    ints = [0, 1, -1, 9, 10, 11, 99, 100, 101, -9, -10, 2 ** 31, -2 ** 31, 2 ** 53 + 1, -2 ** 53 - 1, 2 ** 63, -2 ** 63, 2 ** 64, -2 ** 64 - 1]
+    ints += [s * (10 ** k + d) for k in range(1, 31) for d in (-1, 0, 1) for s in (1, -1)]
+    ints += [rng.randrange(-10 ** rng.randint(1, 400), 10 ** rng.randint(1, 400)) for _ in range(ctx.scale(60, 1500))]
+    ans = small_batches(drv, ["num %d" % i for i in ints])
+    for i, a in zip(ints, ans):
+        ctx.count("json_numbers_checked")
+        want = cps(json.dumps(i)) + ";" + str(json.loads(json.dumps(i)))
+        if a != want:
+            ctx.disagree({"int": str(i)}, f"json.dumps({i}) / json.loads of it = {want[:300]}, model Num.encInt;decInt = {a[:300]}")
+            break
+    ans = drv.batch(["num_dec " + cps(x) for x in INT_LITERALS])
+    for x, a in zip(INT_LITERALS, ans):
+        ctx.count("json_numbers_checked")
+        try:
+            v = json.loads(x) if x == x.strip() else None
+            mine = str(v) if type(v) is int else "rej"
+        except ValueError:
+            mine = "rej"
+        if a != mine:
+            ctx.disagree({"literal": x}, f"json.loads of the number text {x!r} gives {mine}, model Num.decInt {a}")
+            break
+    vals = [rand_json(rng, 4) for _ in range(ctx.scale(150, 4000))]
+    vals += [[], {}, [[]], {"": {}}, {"a": [1, [2, [3, {"b": None}]]]}, [True, False, None, -0.0, ""]]
+    ans = small_batches(drv, ["js_emit " + ",".join(map(str, jcode(v, []))) for v in vals])
+    for v, a in zip(vals, ans):
+        ctx.count("json_values_checked")
+        want = cps(json.dumps(v, separators=(",", ":")))
+        if a != want:
+            ctx.disagree({"value": plain(repr(v))[:300]}, f"json.dumps(v, separators=(',', ':')) = {want[:300]}, model J.emit = {a[:300]}")
+            break
+    # the file text for record texts of our own (any number of records, also none; a record text with a raw LF must be rejected)
+    for _ in range(ctx.scale(25, 400)):
+        n = rng.choice([0, 1, 1, 2, 3, 5, rng.randint(0, 40)])
+        recs = [json.dumps(rand_json(rng, 2), separators=(",", ":")) for _ in range(n)]
+        if rng.random() < 0.15 and recs:
+            recs[rng.randrange(len(recs))] = '"a\nb"'
+        text = "[\n" + ",\n".join(recs) + "\n]"
+        a, b = drv.batch(["txt_write " + (";".join(cps(r) if r else "_" for r in recs) if recs else "-"), "txt_read " + cps(text)])
+        ctx.count("json_file_texts_checked")
+        if n == 0:
+            text = "[\n\n]"   # `[` LF, no item, LF `]`
+        ok = all("\n" not in r for r in recs)
+        want_b = (";".join(cps(r) for r in recs) if ok else "rej") if n > 0 else "-"
+        if a != cps(text) or b != want_b:
+            ctx.disagree({"records": [plain(r)[:80] for r in recs][:6]}, f"file text of {n} record texts: model render(writeText) = {a[:200]} "
+                         f"(expected {cps(text)[:200]}), model readFile = {b[:200]} (expected {want_b[:200]})")
+            break
+
+
+def check_file_lines(ctx, drv, vc, raw, data):
+    """a real saved file against the model's character level: `readFile` finds, line by line, exactly the records json.load
+    finds (their texts), `render (writeText ·)` of those texts is the file byte for byte, and `J.emit` writes each record"""
+    texts = [json.dumps(item, separators=(",", ":")) for item in data]
+    lines = ["txt_read " + cps(raw.decode("latin-1")), "txt_write " + (";".join(cps(t) for t in texts) if texts else "-")]
+    try:
+        lines += ["js_emit " + ",".join(map(str, jcode(item, []))) for item in data]
+    except TypeError:
+        return
+    ans = small_batches(drv, lines)
+    _LINES["n"] += 1
+    ctx.count("files_read_line_by_line_by_the_model")
+    want = ";".join(cps(t) for t in texts) if texts else "rej"
+    if ans[0] != want:
+        ctx.disagree(vc, f"the saved file read line by line (model readFile) gives {ans[0][:300]}; json.load finds the records {want[:300]}")
+        return
+    if ans[1] != cps(raw.decode("latin-1")):
+        ctx.disagree(vc, f"the characters the model writes for the file's records differ from the file: model {ans[1][:300]}, file {cps(raw.decode('latin-1'))[:300]}")
+        return
+    for t, a in zip(texts, ans[2:]):
+        if a != cps(t):
+            ctx.disagree(vc, f"record {plain(t)[:200]}: model J.emit writes {a[:300]}")
+            return
+
+
+# ------------------------------------------------------------------------------------------
 # the same round trips in a process whose locale encoding is NOT UTF-8 (LC_ALL=C, UTF-8 mode off: ASCII), and files
 # that cross between the two processes.  The unchanged code writes pure ASCII text / pickles, so nothing depends on
 # the locale; a writer or reader that relies on the locale encoding shows here with ANY non-ASCII character.
@@ -2712,6 +2849,8 @@ def run(ctx):
             check_object(ctx, drv, gen_case(ctx.rng, T, stringy=True), tmp)
         if drv is not None:
             check_strings(ctx, drv, ctx.rng)
+            _LINES["n"] = 0
+            check_json_chars(ctx, drv, ctx.rng)
         loc = [gen_case(ctx.rng, T, stringy=True) for T in TYPES for _ in range(ctx.scale(2, 10))] + \
               [gen_case(ctx.rng, T, stringy=False) for T in TYPES]
         loc.append(expand({"T": ctx.rng.choice(TYPES), "dim": "strings", "size": 0, "weighted": True, "wreg": "q", "seed": ctx.rng.getrandbits(32)}))
@@ -2764,6 +2903,11 @@ def replay(ctx, case):
                 if "ops" in c:
                     c["ops"] = [tuple(op) for op in c["ops"]]
             check_locale(ctx, case["cases"], tmp)
+        elif any(k in case for k in ("int", "literal", "value", "records", "string")):
+            # model against the json library (no implementation object involved): the deterministic streams again
+            if drv is not None:
+                check_strings(ctx, drv, ctx.rng)
+                check_json_chars(ctx, drv, ctx.rng)
         elif "doc" in case:
             check_hif(ctx, drv, case, tmp)
         elif "text" in case:
